@@ -235,4 +235,47 @@ def escapeU (c : Nat) : List Nat :=
     let v := c - 0x10000
     (0x5C :: 0x75 :: hex4 (0xD800 + v / 1024)) ++ (0x5C :: 0x75 :: hex4 (0xDC00 + v % 1024))
 
+
+/-! ### hex-encoded binary columns: `BinaryEncoder::encode` (writer), `decode_hex_to_writer` (reader) -/
+
+/-- `write!(out, "{byte:02x}")` for every byte -/
+def encodeHex (bs : List Nat) : List Nat := bs.flatMap (fun b => [hexDigit (b / 16 % 16), hexDigit (b % 16)])
+
+/-- the JSON token of a binary value -/
+def encodeBinary (bs : List Nat) : List Nat := 0x22 :: (encodeHex bs ++ [0x22])
+
+/-- `decode_hex_digit` (same digit sets as `parse_hex`) -/
+def decodeHexDigit (b : Nat) : Option Nat :=
+  if 48 ≤ b ∧ b ≤ 57 then some (b - 48)
+  else if 97 ≤ b ∧ b ≤ 102 then some (b - 97 + J_BIN_DIGIT_A)
+  else if 65 ≤ b ∧ b ≤ 70 then some (b - 65 + 10)
+  else none
+
+/-- the obvious decoder: two digits per byte; a trailing single digit yields its own value
+(that is what `decode_hex_to_writer` does with `iter.remainder()`) -/
+def decodeHexSimple : List Nat → Option (List Nat)
+  | [] => some []
+  | [c] => (decodeHexDigit c).map (fun l => [l])
+  | a :: b :: rest =>
+    match decodeHexDigit a, decodeHexDigit b, decodeHexSimple rest with
+    | some h, some l, some r => some (((h <<< J_BIN_SHIFT) ||| l) % 256 :: r)
+    | _, _, _ => none
+
+/-- `decode_hex_to_writer` as written: pairs are decoded into a scratch buffer of `J_BIN_BUF`
+bytes which is flushed to the writer whenever it is full, the odd remainder digit is appended,
+and what is left is flushed at the end.  `buf` = `buffer[..buffered]`, `out` = what the writer
+has received.  `none` = the error return (the caller discards the builder). -/
+def decodeHexLoop (buf out : List Nat) : List Nat → Option (List Nat)
+  | [] => some (out ++ buf)
+  | [c] => (decodeHexDigit c).map (fun l => out ++ (buf ++ [l]))
+  | a :: b :: rest =>
+    match decodeHexDigit a, decodeHexDigit b with
+    | some h, some l =>
+      let buf' := buf ++ [((h <<< J_BIN_SHIFT) ||| l) % 256]
+      if buf'.length = J_BIN_BUF then decodeHexLoop [] (out ++ buf') rest
+      else decodeHexLoop buf' out rest
+    | _, _ => none
+
+def decodeHexToWriter (s : List Nat) : Option (List Nat) := decodeHexLoop [] [] s
+
 end ArrowModel.C17.Json
